@@ -447,6 +447,8 @@ def collection_level(ctx):
             if st1 != 200:
                 ctx.violation("export of the collection answers %d" % st1, case)
                 continue
+            if not book:
+                export_vs_model(ctx, app, coll, case)
             up = parse_content(body)
             ex = parse_content(export)
 
@@ -541,9 +543,31 @@ def individual_export_level(ctx):
                 ctx.violation("a VTIMEZONE appears more than once in the export (TZIDs %s)" % tzids, dict(case, uploads=list(uploaded.values())[:5]))
             if ntz and not tzids:
                 ctx.violation("the time zone definition of the stored objects is missing in the export", case)
+            export_vs_model(ctx, app, "/u/cal/", case)
             uids = sorted(v for c in comps if c[0] != "VTIMEZONE" for n_, p_, v in c[1] if n_ == "UID")
             if sorted(set(uids)) != sorted(uploaded):
                 ctx.violation("the export holds objects %s, stored were %s" % (sorted(set(uids)), sorted(uploaded)), case)
+
+
+def export_vs_model(ctx, app, coll_path, case):
+    """`BaseCollection.serialize()` against the line-level model (lean/RadicaleModel/Export.lean) on the very item texts, in the
+    order the storage yields them"""
+    if not ctx.driver:
+        return
+    with app.storage.acquire_lock("r"):
+        coll = next(iter(app.storage.discover(coll_path)), None)
+        if coll is None:
+            return
+        texts = [it.serialize() for it in coll.get_all()]
+        real = coll.serialize()
+    a = ctx.driver.ask1({"m": "fold", "items": [[chars(l) for l in t.split("\r\n")] for t in texts]})
+    body = "".join(unchars(l) + "\r\n" for l in a["body"])
+    tail = body + "END:VCALENDAR\r\n"
+    if not real.endswith(tail):
+        ctx.disagree("whole-calendar export vs model (Export.body)", dict(case, items=len(texts)), real[-min(len(real), len(tail) + 80):][:600], tail[:600])
+    head = real[:len(real) - len(tail)] if real.endswith(tail) else ""
+    if head and [l for l in head.split("\r\n") if l.startswith("BEGIN:") and l != "BEGIN:VCALENDAR"]:
+        ctx.disagree("the export's head holds components the model does not produce", case, head[:300], "template only")
 
 
 def witnesses(ctx):
